@@ -31,6 +31,13 @@ type Clause struct {
 	Line  int
 }
 
+type Define struct {
+	Name   string
+	Params []QVar
+	E      Expr
+	Line   int
+}
+
 type Let struct {
 	Name string
 	E    Expr
@@ -65,6 +72,8 @@ type Contract struct {
 	PLets     []*Let // evaluated in the post-state (may mention result)
 	Loops     map[int]*LoopSpec
 	Ghost     []QVar
+	Defines   []*Define
+	Returns   []*Clause // closures: functional postconditions (may mention parameters and result only)
 	Decreases *Clause
 	Flags     map[string]bool // inline, trusted, wraps, nocheck
 	Line      int
@@ -223,7 +232,27 @@ func loadContracts(path string) (*ContractFile, error) {
 			return &Clause{Label: label, Src: src, E: e, Props: props, Line: ln}, nil
 		}
 		switch kw {
-		case "requires", "ensures", "on_panic", "invariant", "assigns", "panics_iff", "panics_if", "decreases":
+		case "define":
+			// define NAME(p1 type, p2 type) := expr
+			m := regexp.MustCompile(`^([A-Za-z_][A-Za-z0-9_]*)\(([^)]*)\)\s*:=\s*(.*)$`).FindStringSubmatch(rest)
+			if m == nil {
+				return nil, fmt.Errorf("contracts:%d: bad define", ln)
+			}
+			d := &Define{Name: m[1], Line: ln}
+			for _, prm := range strings.Split(m[2], ",") {
+				fs := strings.Fields(prm)
+				if len(fs) != 2 {
+					return nil, fmt.Errorf("contracts:%d: bad define parameter", ln)
+				}
+				d.Params = append(d.Params, QVar{fs[0], fs[1]})
+			}
+			e, err := parseSpec(m[3])
+			if err != nil {
+				return nil, fmt.Errorf("contracts:%d: %v", ln, err)
+			}
+			d.E = e
+			cur.Defines = append(cur.Defines, d)
+		case "requires", "ensures", "on_panic", "invariant", "assigns", "panics_iff", "panics_if", "decreases", "returns":
 			c, err := mk()
 			if err != nil {
 				return nil, err
@@ -233,6 +262,8 @@ func loadContracts(path string) (*ContractFile, error) {
 				cur.Requires = append(cur.Requires, c)
 			case "ensures":
 				cur.Ensures = append(cur.Ensures, c)
+			case "returns":
+				cur.Returns = append(cur.Returns, c)
 			case "on_panic":
 				cur.OnPanic = append(cur.OnPanic, c)
 			case "assigns":
